@@ -85,11 +85,12 @@ class Summary(object):
 _CACHE = {}
 
 
-def analyse(mtu_ok=True, regions=None, config='systemd', fresh_state=False, engine_cls=None, extra=None, tracked=None):
+def analyse(mtu_ok=True, regions=None, config='systemd', fresh_state=False, engine_cls=None, extra=None, tracked=None, force_summary=False):
     """Run parseFrame over the requested regions; -> (fs, {region: [Summary]}, obligations, stats)"""
     from ..engine import Engine
     prog = load_core(config)
     fs = FrameSetup(prog, mtu_ok=mtu_ok, fresh_state=fresh_state)
+    fs.force_summary = force_summary
     kw = {}
     if tracked is not None:
         kw['tracked'] = tracked
